@@ -1,6 +1,8 @@
 package netsim
 
 import (
+	"runtime"
+	"strings"
 	"sync"
 
 	"github.com/icon-project/goloop/common/db"
@@ -72,6 +74,12 @@ func (b *simBucket) Has(k []byte) (bool, error) {
 
 func (b *simBucket) Set(k, v []byte) error {
 	if n := b.d.inc; n != nil {
+		if traceSites {
+			n.s.rc.Event("DBSET n%d %q %x by %s", n.node.idx, string(b.id), k[:min(len(k), 4)], callerChain())
+		}
+		if b.id == db.TransactionLocatorByHash && fromLocatorFlusher() {
+			n.s.gateFlusherSet(n)
+		}
 		n.crashPoint(siteDBSet)
 	}
 	b.d.mu.Lock()
@@ -89,4 +97,97 @@ func (b *simBucket) Delete(k []byte) error {
 	defer b.d.mu.Unlock()
 	delete(b.data, string(k))
 	return nil
+}
+
+// callerChain (VERIF_TRACE_SITES only): the goloop functions a database write comes from.
+func callerChain() string {
+	var pcs [24]uintptr
+	n := runtime.Callers(3, pcs[:])
+	frames := runtime.CallersFrames(pcs[:n])
+	var out []string
+	for {
+		f, more := frames.Next()
+		if i := strings.LastIndex(f.Function, "/"); i >= 0 && strings.Contains(f.Function, "goloop") {
+			out = append(out, f.Function[i+1:])
+		}
+		if !more || len(out) >= 6 {
+			break
+		}
+	}
+	return strings.Join(out, " < ")
+}
+
+// The locator manager of goloop flushes finalised transaction ids on a background goroutine. Its writes
+// race with the writes of the finalising goroutine, and a crash image taken in between (or a crash
+// countdown counting both) depended on the Go scheduler (found by the determinism self-test: 2 of 48
+// identical runs differed). Each write of that goroutine is therefore a scheduled event: it waits until
+// the driver, at quiescence, lets exactly one of them through.
+type flushWaiter struct {
+	inc *incarnation
+	ch  chan struct{}
+}
+
+func fromLocatorFlusher() bool {
+	var pcs [12]uintptr
+	n := runtime.Callers(3, pcs[:])
+	frames := runtime.CallersFrames(pcs[:n])
+	for {
+		f, more := frames.Next()
+		if strings.HasSuffix(f.Function, "txlocator.(*manager).handleFlushJobs") {
+			return true
+		}
+		if !more {
+			return false
+		}
+	}
+}
+
+func (s *sim) gateFlusherSet(inc *incarnation) {
+	s.mu.Lock()
+	if inc.ungated.Load() || inc.dead.Load() {
+		s.mu.Unlock()
+		return
+	}
+	w := &flushWaiter{inc: inc, ch: make(chan struct{})}
+	s.flushGate = append(s.flushGate, w)
+	s.mu.Unlock()
+	s.poke()
+	<-w.ch
+}
+
+// releaseFlusherSet runs on the driver at quiescence: lets the held write of the lowest-numbered node through.
+func (s *sim) releaseFlusherSet() bool {
+	s.mu.Lock()
+	best := -1
+	for i, w := range s.flushGate {
+		if best < 0 || w.inc.node.idx < s.flushGate[best].inc.node.idx {
+			best = i
+		}
+	}
+	if best < 0 {
+		s.mu.Unlock()
+		return false
+	}
+	w := s.flushGate[best]
+	s.flushGate = append(s.flushGate[:best], s.flushGate[best+1:]...)
+	s.mu.Unlock()
+	s.rc.Event("LOCATOR-FLUSH n%d", w.inc.node.idx)
+	close(w.ch)
+	return true
+}
+
+// releaseFlusherOf: the incarnation crashed or is being stopped; its flusher runs free from now on.
+func (s *sim) releaseFlusherOf(inc *incarnation) {
+	inc.ungated.Store(true)
+	s.mu.Lock()
+	var keep []*flushWaiter
+	for _, w := range s.flushGate {
+		if w.inc == inc {
+			close(w.ch)
+		} else {
+			keep = append(keep, w)
+		}
+	}
+	s.flushGate = keep
+	s.mu.Unlock()
 }
